@@ -163,6 +163,15 @@ EpochManager::RemoveOutDatedLists(  //
   auto *current = protected_lists_;
   while (current->next != nullptr) {
     const auto upper_bits = current->GetUpperBits();
+    while (protected_epoch > upper_bits) {
+      // the node of this protected epoch has already been removed (a thread may
+      // publish an outdated epoch for a moment while entering), so ignore it
+      if (++it == it_end) {
+        protected_epoch = kMinEpoch;
+        break;
+      }
+      protected_epoch = *it & kUpperMask;
+    }
     if (protected_epoch == upper_bits) {
       // this node is still referred, so skip
       prev = current;
